@@ -876,6 +876,22 @@ def _merge(args, kw, less):
                 cur = z3.If(c, k, cur)
                 curi = z3.If(c, e.val(it), curi)
             return "done", SymInt(e, curi)
+    if all(isinstance(k, (SymRat, SymInt, int)) and not isinstance(k, bool) for k in keys) and any(isinstance(k, SymRat) for k in keys) \
+            and (key is None or all(isinstance(x, int) for x in items)):
+        # exact rationals with positive denominators: compare by cross-multiplication, merge into If-terms
+        rs = [SymRat.lift(e, k) for k in keys]
+
+        def rless(a, b):
+            return (a.n * b.d) < (b.n * a.d)
+        want_less = less(e.val(0), e.val(1)) is not None and z3.is_true(z3.simplify(less(e.val(0), e.val(1))))
+        cur = rs[0]
+        curi = e.val(items[0]) if key is not None else None
+        for k, it in zip(rs[1:], items[1:]):
+            c = rless(k, cur) if want_less else rless(cur, k)
+            cur = SymRat(e, z3.If(c, k.n, cur.n), z3.If(c, k.d, cur.d))
+            if key is not None:
+                curi = z3.If(c, e.val(it), curi)
+        return "done", (SymInt(e, curi) if key is not None else cur)
     if all(isinstance(k, (SymFloat, float, int)) for k in keys) and key is None:
         ks = [SymFloat.lift(e, k).z for k in keys]
         cur = ks[0]
